@@ -45,7 +45,7 @@ RELEVANT = {
     "C01": ["IsingHam", "Cluster", "ClusterIsing", "RefreshIsing", "EnergyIsing", "Diag", "HeatBathIsing"],
     "C02": ["IsingHam", "HeatBath", "HeatBathIsing"],
     "C03": ["IsingHam", "Rvb", "BondContainer"],
-    "C04": ["Cluster", "RefreshGeneric", "EnergyGeneric", "Diag", "HeatBath"],
+    "C04": ["Cluster", "RefreshGeneric", "EnergyGeneric", "Diag", "HeatBath", "Loop"],
     "C05": ["IsingHam", "Tempering"],
     "C08": ["Diag", "HeatBath"],
     "C09": ["IsingHam", "Cluster", "ClusterIsing", "RefreshIsing"],
@@ -105,6 +105,7 @@ GROUP_THEOREMS = {
                             "chunk_to_swap_dec_parallel_agree", "chunk_remaining_dec_parallel_agree", "chunk_swap_due_parallel_agree",
                             "chunk_to_swap_reset_parallel_agree", "chunk_sample_due_parallel_agree", "chunk_to_sample_reset_parallel_agree",
                             "chunk_final_energy_parallel_agree"],
+    "Loop": ["loop_exit_agree", "loop_start_agree", "loop_total_vars_agree"],
     "BondContainer": ["bc_correct_total_agree", "bc_grow_agree", "bc_insert_agree", "bc_remove_index_agree", "bc_pick_loop_agree"],
     "Autocorr": ["autocorr_mean_agree", "autocorr_center_agree", "autocorr_norm_agree", "dot_div", "rot_map", "autocorr_norm_agree_colAutocorr",
                              "autocorr_final_agree", "autocorr_final_agree_autocorr", "autocorr_spin_value_agree", "autocorr_spin_value_product_agree",
